@@ -91,6 +91,7 @@ Write(blk, sel, aop, src, cx) ==
 (*   [k |-> "ex", buf, shape, r, m, c]    the expression  m * slice + c                            *)
 (*   [k |-> "ex2", buf, shape, r, vals]   the expression  slice + tensor                           *)
 (*   [k |-> "rv", buf, sel]               an index-tensor view (flat offsets sel) of a buffer       *)
+(*   [k |-> "mp", buf, shape, via]        a TensorMap / reshape / flatten handle of a whole buffer    *)
 (* evaluated on memory `mem` (a function from buffer names to blocks), n = number of elements.     *)
 EvalRhs(mem, rhs, n, cx) == TLCEval(
     CASE rhs.k = "sc" -> [q \in 1..n |-> rhs.v]
@@ -99,6 +100,7 @@ EvalRhs(mem, rhs, n, cx) == TLCEval(
       [] rhs.k = "ex" -> LET x == Read(mem[rhs.buf], Sel(rhs.shape, rhs.r))
                          IN [q \in 1..n |-> Add(Mul(rhs.m, x[q], cx), rhs.c, cx)]
       [] rhs.k = "rv" -> Read(mem[rhs.buf], rhs.sel)                                  \* index view of a buffer
+      [] rhs.k = "mp" -> Read(mem[rhs.buf], [q \in 1..n |-> q - 1])                   \* a map of the whole buffer (row-major cells in order)
       [] rhs.k = "ex2" -> LET x == Read(mem[rhs.buf], Sel(rhs.shape, rhs.r))
                           IN [q \in 1..n |-> Add(x[q], rhs.vals[q], cx)])
 
